@@ -9,13 +9,13 @@ TECHNIQUE = "runtime monitoring on a virtual-time simulated network: bursts of C
 LEVEL_TEXT = "Each generated burst (2-8 messages, 1-3 endpoints, every reaction kind at several delays) is run against the real MessageManager; predicted first-transmission instants, exchange intervals, FIFO order and completion of every request are compared with the recorded history."
 LEVEL_NOTE = "Trusted: harness/simnet.py wire log and virtual clock, the queue model in checks/c14.py. Submission order is recorded at the MessageManager.send_message boundary (instance wrapper installed from the harness). Peers never answer with a separate response while the exchange is still unacknowledged."
 RULE = (
-    "one case = one burst: messages (submit offset, endpoint, CON/NON, reaction in {piggyback, empty ACK + separate response, Reset, silence, ICMP error} with delay class). "
+    "one case = one burst: messages (submit offset, endpoint, CON/NON, reaction in {piggyback, empty ACK + separate response, ACK with a foreign response + separate response, Reset, silence, ICMP error} with delay class). "
     "Non-trivial = at least one message was held back behind another exchange; distinct = distinct tuples of (endpoint, type, reaction, delay class, offset class)"
 )
 ASSUMPTIONS = ["default TransportTuning (MAX_RETRANSMIT 4) for all requests", "one-way latency 1 ms"]
 REQUIRED_MONITORS = {"first_tx_time": 300, "no_overlap": 300, "fifo": 100, "held_back_failed_with_head": 20, "non_not_delayed": 50, "other_endpoint_not_delayed": 50, "all_completed": 100, "backlog_invariant": 200}
 
-REACTIONS = ["piggy", "empty+sep", "rst", "silent", "icmp"]
+REACTIONS = ["piggy", "empty+sep", "foreign-ack+sep", "rst", "silent", "icmp"]
 DELAYS = {"now": 0.0, "short": 0.3, "after-retx": 3.5}
 OFFSETS = [0.0, 0.0, 0.0, 0.01, 1.0, 5.0]
 
@@ -75,6 +75,11 @@ def run_burst(neps, msgs, seed, rep, case):
                 loop.call_later(d, peer.send, src, rc.Msg(rc.ACK, rc.c(2, 5), m.mid, m.token, (), b"piggy-%d" % spec["i"]))
             elif kind == "empty+sep":
                 loop.call_later(d, peer.send, src, rc.Msg(rc.ACK, 0, m.mid, b"", (), b""))
+                loop.call_later(d + 0.7, peer.send, src, rc.Msg(rc.NON, rc.c(2, 5), peer.next_mid(), m.token, (), b"sep-%d" % spec["i"]))
+            elif kind == "foreign-ack+sep":
+                # the acknowledgement carries a response the client has no use for (a token it does not know): it
+                # acknowledges the message all the same; the real response follows separately
+                loop.call_later(d, peer.send, src, rc.Msg(rc.ACK, rc.c(2, 5), m.mid, b"\xf0\x0f" + bytes([spec["i"]]), (), b"foreign-%d" % spec["i"]))
                 loop.call_later(d + 0.7, peer.send, src, rc.Msg(rc.NON, rc.c(2, 5), peer.next_mid(), m.token, (), b"sep-%d" % spec["i"]))
             elif kind == "rst":
                 loop.call_later(d, peer.send, src, rc.Msg(rc.RST, 0, m.mid, b"", (), b""))
